@@ -42,6 +42,7 @@ type hCol struct {
 	PK   bool
 	Ord  int    // 1-based position in the PRIMARY KEY clause (0 for non-key columns)
 	Def  string // DEFAULT literal ("" = none)
+	Tag  int    // dolt's likely tag lineage: a column created while the HEAD commit's table of the same name has a column of that name takes over that column's tag (observed), else its own UID
 	UID  int    // identity of the column: assigned by CREATE TABLE / ADD COLUMN, kept by RENAME / MODIFY
 }
 
@@ -499,6 +500,12 @@ func (h *hHist) createTable() {
 	for i := range t.Cols {
 		h.nUID++
 		t.Cols[i].UID = h.nUID
+		t.Cols[i].Tag = h.nUID
+		if ht := h.Commits[h.head()].State[name]; ht != nil {
+			if j := ht.colIndex(t.Cols[i].Name); j >= 0 {
+				t.Cols[i].Tag = ht.Cols[j].Tag
+			}
+		}
 	}
 	for _, c := range t.Cols {
 		d := "`" + c.Name + "` " + c.Type
@@ -694,7 +701,12 @@ func (h *hHist) addColumn() {
 	}
 	ty := rapid.SampledFrom(h.cfg.Types).Draw(rt, h.label("addc.type"))
 	h.nUID++
-	col := hCol{Name: cn, Kind: ty.Kind, Type: ty.Type, UID: h.nUID}
+	col := hCol{Name: cn, Kind: ty.Kind, Type: ty.Type, UID: h.nUID, Tag: h.nUID}
+	if ht := h.Commits[h.head()].State[name]; ht != nil {
+		if j := ht.colIndex(cn); j >= 0 {
+			col.Tag = ht.Cols[j].Tag
+		}
+	}
 	def := "`" + cn + "` " + ty.Type
 	fill := vsql.Null
 	if (ty.Kind == hkInt || ty.Kind == hkStr || ty.Kind == hkDec) && rapid.IntRange(0, 2).Draw(rt, h.label("addc.hasdef")) == 0 {
